@@ -208,7 +208,7 @@ Theorem eq_stage_nonvacuous :
             av_eq_real F [VI 1; VI 5; VI 1] [VI 1; VI 5; VI 2] = false.
 Proof.
   split.
-  - intros i Hi. destruct i as [|[|[|k]]]; simpl in Hi; try lia; split;
+  - intros i Hi. destruct i as [|[|[|[|k]]]]; simpl in Hi; try lia; split;
       unfold value_comparable; cbn; cmpb.
   - intros F.
     assert (C1 : value_comparable [VF 1065353216; VI 3]) by (unfold value_comparable; cmpb).
